@@ -73,6 +73,8 @@ def check(ctx: Ctx) -> None:
     check_mean_counts(ctx, 'C20.g', [MISC, PROJ], floor=20)
     from ..idioms import check_no_alias_inplace
     check_no_alias_inplace(ctx, 'C20.h', [PROJ], floor=5)
+    from ..idioms import check_svd_scalings
+    check_svd_scalings(ctx, 'C20.i', [MISC, PROJ, METR, CONV, 'pyphysim/mimo/mimo.py', 'pyphysim/comm/blockdiagonalization.py', 'pyphysim/ia/algorithms.py', 'pyphysim/ia/iabase.py'], floor=4)
 
 
 def _mat(ctx: Ctx, it: X.MatInterp, fn, args, what: str) -> X.Val:
